@@ -147,7 +147,10 @@ type PoolWorld struct {
 	lastPay    *big.Int
 
 	lastPeerURIs []string
+	agents       map[string]*stackAgent
 }
+
+func netPipe() (net.Conn, net.Conn) { return net.Pipe() }
 
 func nodeURIOf(w *World, op J) string {
 	if has(op, "rawuri") {
@@ -271,6 +274,11 @@ func (pw *PoolWorld) closeConn(c *Conn) {
 }
 
 func (pw *PoolWorld) shutdown() {
+	for _, sa := range pw.agents {
+		if sa.running {
+			stopAgent(sa)
+		}
+	}
 	for _, c := range pw.conns {
 		pw.closeConn(c)
 	}
@@ -278,6 +286,8 @@ func (pw *PoolWorld) shutdown() {
 
 func isPoolOp(name string) bool {
 	switch name {
+	case "AgentNew", "AgentPeers", "AgentStart", "AgentUpdate", "AgentStop":
+		return true
 	case "Burst", "Open", "Mode", "Close", "Connect", "Host", "Client", "Update", "Peer", "AddNode", "Withdraw", "Account", "Deposit", "SettleMode", "Ping":
 		return true
 	}
@@ -474,6 +484,9 @@ func (w *World) poolOp(op J) (J, error) {
 		return nil, fmt.Errorf("pool op in a world without pool")
 	}
 	name := str(op, "op")
+	if isStackOp(name) {
+		return w.stackOp(op)
+	}
 	switch name {
 	case "Burst":
 		// the requests are issued concurrently, each from its own goroutine
